@@ -349,7 +349,9 @@ fn check_text(ctx: &mut Ctx, op: &str, font: &MonoFont, builtin: bool, l: &Lay) 
         let returned = style.draw_string(line, lp, baseline, &mut scratch).expect("no fault");
         if obs_case && n > 0 {
             ctx.count("obs:transparent-text-draw-string-returns-trailing-spacing");
-            ctx.expect(returned == predicted + Point::new(sp, 0), "C15:draw-return-ne-measure-next", || format!("custom font: {:?} vs {:?}", returned, predicted));
+            // outside C15's quantifier (custom spaced font, no colours): the suite pins the trailing spacing
+            // (`transparent_text_dimensions_one_line_spaced`); the property would be met by either value.
+            ctx.expect(returned == predicted + Point::new(sp, 0) || returned == predicted, "C15:draw-return-ne-measure-next", || format!("custom font: {:?} vs {:?}", returned, predicted));
         } else {
             ctx.expect(returned == predicted, "C15:draw-return-ne-measure-next", || format!("draw_string {:?} measure_string {:?}", returned, predicted));
             if i + 1 == segs.len() {
